@@ -112,6 +112,35 @@ Theorem C08_header_edit_leaves_text :
 Proof. intros. apply header_edit_leaves_text_lemma; auto. Qed.
 Print Assumptions C08_header_edit_leaves_text.
 
-Theorem C08_cache_fresh_refuted_header_edit : ~ cache_fresh_any_world GENPOL.
-Proof. exact (refuted_header_edit GENPOL). Qed.
-Print Assumptions C08_cache_fresh_refuted_header_edit.
+(* Tied to the scrape (Gen.HEADERS_HASHED; [vis] is what the heading hash sees of the replayer's worlds).
+   Since 304728c a cincdir-header edit IS visible: every history that edits only the compiler and such
+   headers (worlds below 100) is fresh.  The first conjunct is checked by computation: on a revert of
+   304728c this proof no longer checks. *)
+Theorem C08_cincdir_header_edits_fresh :
+  HEADERS_HASHED = true /\
+  forall H cc_ok tps h, H_inj H -> 0 < tps -> Forall (step_world_below 100) h ->
+    all_fresh cc_ok (exec H (vis HEADERS_HASHED) cc_ok GENPOL tps (init tps) h) = true.
+Proof.
+  split; [reflexivity|]. intros H cc_ok tps h Hi Tp F.
+  apply fresh_with_hashed_headers; auto; try reflexivity; left; reflexivity.
+Qed.
+Print Assumptions C08_cincdir_header_edits_fresh.
+
+(* hashing the cincdir headers is necessary: without it the edit (world 0 -> 10) is served stale under every policy *)
+Theorem C08_header_hash_needed :
+  forall pol, all_fresh all_ok (exec H_id (vis false) all_ok pol 10 (init 10) w_cincdir_header_edit) = false.
+Proof. exact refuted_without_hashed_headers. Qed.
+Print Assumptions C08_header_hash_needed.
+
+(* THE OPEN FINDING: a header reached only through --cflags -I (or a `## cfile` extra C file; world 0 -> 100)
+   is served stale by the code as it is - scraped policy, scraped HEADERS_HASHED - so the statement over
+   ALL world edits is false *)
+Definition C08_cache_fresh_all_world_edits : Prop :=
+  forall H cc_ok tps h, H_inj H -> 0 < tps ->
+    all_fresh cc_ok (exec H (vis HEADERS_HASHED) cc_ok GENPOL tps (init tps) h) = true.
+Theorem C08_cache_fresh_all_world_edits_refuted : ~ C08_cache_fresh_all_world_edits.
+Proof.
+  intros F. specialize (F H_id all_ok 10 w_I_header_edit H_id_inj eq_refl).
+  rewrite (refuted_I_header_edit HEADERS_HASHED GENPOL) in F. discriminate.
+Qed.
+Print Assumptions C08_cache_fresh_all_world_edits_refuted.
